@@ -2,17 +2,17 @@
    Deciding method: round-trip validation of each expression (stream expr-trees): the real serializer's text is read
    back by the real parser and the two sympy objects are compared inside Coq by value, free symbols and uninterpreted
    calls; independently the text is read by the specification grammar (theories/Parser.v) and must have the value of
-   the original.  What is proved: the specification grammar reads minimal-parentheses printing back exactly
-   (bounded, exhaustive), it reads the caret the printer emits as right-associative power, and the printer overrides
+   the original.  What is proved: the specification grammar reads minimal-parentheses printing back exactly,
+   for every tree (unbounded, by induction), it reads the caret the printer emits as right-associative power, and the printer overrides
    regenerated from sympy_serializer.py are the expected ones.  sympy's StrPrinter itself is an oracle. *)
 From Coq Require Import List String QArith.
-From Bq Require Import Expr Parser ParserFacts.
+From Bq Require Import Expr Parser ParserFacts ParserRoundTrip.
 From BqGen Require Import GenParser.
 Import ListNotations.
 Open Scope string_scope.
 
-Theorem C12_minimal_printing_reads_back : forall e, In e (trees_upto 4) -> parse_tokens (ptoks e) = Some e.
-Proof. exact parse_print_upto_4. Qed.
+Theorem C12_minimal_printing_reads_back : forall e, parse_tokens (ptoks e) = Some e.
+Proof. exact parse_tokens_ptoks. Qed.
 Print Assumptions C12_minimal_printing_reads_back.
 
 (* the printer writes powers with a caret; the grammar reads the caret as right-associative power, binding tighter
